@@ -168,33 +168,64 @@ def free_symbols(e):
     return out
 
 
-def check(ob, ctx, timeout_ms=10000, want_model=True, use_cvc5=True, wall_ms=None):
+def check(ob, ctx, timeout_ms=10000, want_model=True, use_cvc5=True, wall_ms=None, rlimit=None):
     t0 = time.time()
     try:
         hyps, goal = ground(ob, ctx)
     except Exception as e:  # grounding must never turn into a verdict
         return {"status": "error", "reason": f"grounding: {type(e).__name__}: {e}", "time": time.time() - t0}
     s = z3.Solver()
-    s.set("rlimit", timeout_ms * 3000)
-    s.set("timeout", wall_ms or max(timeout_ms * 12, 120000))
+    s.set("rlimit", rlimit or timeout_ms * 800)
+    s.set("timeout", wall_ms or max(timeout_ms * 3, 30000))
     for h in hyps:
         s.add(h)
     s.add(z3.Not(goal))
+    dump = os.environ.get("HEXVC_DUMP")
+    if dump and ob.id and dump in ob.id:
+        os.makedirs(WORK, exist_ok=True)
+        with open(os.path.join(WORK, f"dump_{abs(hash(ob.id + str(ob.path))) % 100000}.smt2"), "w") as fh:
+            fh.write("; " + ob.id + "\n(set-logic ALL)\n" + s.to_smt2())
     r = s.check()
-    res = {"status": str(r), "time": time.time() - t0, "backend": "z3"}
+    res = {"status": str(r), "time": time.time() - t0, "backend": "z3-5.1(api)"}
     if r == z3.sat and want_model:
         m = s.model()
         res["model"] = model_dict(m)
-        res["_model"] = m
     if r == z3.unknown:
         res["reason"] = s.reason_unknown()
         if use_cvc5:
-            r2 = run_cvc5(s, timeout_ms)
-            if r2 in ("unsat", "sat"):
-                res["status"] = r2
-                res["backend"] = "cvc5"
-                res["time"] = time.time() - t0
+            # portfolio: the same ground query on the other installed solvers (different versions and
+            # strategies decide different nonlinear instances; slow queries are the unstable ones)
+            for name, r2 in run_external(s, timeout_ms):
+                if r2 in ("unsat", "sat"):
+                    res["status"] = r2
+                    res["backend"] = name
+                    res.pop("reason", None)
+                    break
+            res["time"] = time.time() - t0
     return res
+
+
+def run_external(solver, timeout_ms):
+    os.makedirs(WORK, exist_ok=True)
+    text = solver.to_smt2()
+    fd, path = tempfile.mkstemp(suffix=".smt2", dir=WORK)
+    secs = max(20, int(timeout_ms / 1000 * 4))
+    try:
+        with os.fdopen(fd, "w") as fh:
+            fh.write("(set-logic ALL)\n" + text)
+        for name, cmd in (("z3-4.8.12(cli)", ["/usr/bin/z3", f"-T:{secs}", path]),
+                          ("cvc5-1.0.3", ["/usr/bin/cvc5", f"--tlimit={secs * 1000}", "--arrays-exp", path])):
+            try:
+                out = subprocess.run(cmd, capture_output=True, text=True, timeout=secs + 10)
+                ans = out.stdout.strip().splitlines()
+                yield name, (ans[0].strip() if ans else "unknown")
+            except Exception:
+                yield name, "unknown"
+    finally:
+        try:
+            os.unlink(path)
+        except OSError:
+            pass
 
 
 def run_cvc5(solver, timeout_ms):
@@ -251,7 +282,7 @@ def solve_all(ctx, obligations, timeout_ms, procs=None):
 
     n = len(obligations)
     if procs is None:
-        procs = 1 if n < 120 else (3 if n < 400 else 5)
+        procs = 1 if n < 150 else (2 if n < 500 else 4)
     if procs <= 1:
         return [one(ob) for ob in obligations]
     slices = [list(range(k, n, procs)) for k in range(procs)]
